@@ -1,6 +1,25 @@
+// Engine `field`.
+//   (default)  `<op> <a> <b> <p>` (hex): one public function of circom_algebra::modular_arithmetic.
+//   sweep P..  every operation on every operand pair of the small fields P.
+//   dispatch   `<curve> <hex of Circom expression text>`: the expression is wrapped into
+//              `function f() { return <expr>; }`, parsed, lowered (`into_cfg`), converted to SSA - which runs
+//              the REAL value propagation (Cfg::propagate_values -> Expression::propagate_values ->
+//              ExpressionInfixOpcode/ExpressionPrefixOpcode::propagate_values of expression_impl.rs) - and the
+//              returned expression is printed with the constant attached to every node:
+//              E := (num HEX V) | (infix OP E E V) | (prefix OP E V) | (other V),  V := - | (b 0|1) | (f HEX)
+//              where OP is the opcode the parser produced for the surface token.
 use circom_algebra::modular_arithmetic as ma;
 use num_bigint_dig::BigInt;
 use num_traits::Num;
+use parser::parse_definition;
+use program_structure::ast::{Definition, FillMeta};
+use program_structure::cfg::IntoCfg;
+use program_structure::constants::Curve;
+use program_structure::ir::value_meta::ValueMeta;
+use program_structure::ir::{Expression, Statement};
+use program_structure::report::ReportCollection;
+use std::str::FromStr;
+use verif_harness::irdump;
 use std::io::Write;
 use std::panic::{catch_unwind, AssertUnwindSafe};
 use std::sync::mpsc;
@@ -104,6 +123,85 @@ pub fn sweep<W: Write>(p: u64, out: &mut W) {
     }
 }
 
+/// The returned expression with the constant the implementation attached to every node.
+fn dump(e: &Expression) -> String {
+    let v = irdump::val(e.value());
+    match e {
+        Expression::Number(_, n) => format!("(num {} {})", irdump::big(n), v),
+        Expression::InfixOp { lhe, infix_op, rhe, .. } => {
+            format!("(infix {} {} {} {})", irdump::infix(infix_op), dump(lhe), dump(rhe), v)
+        }
+        Expression::PrefixOp { prefix_op, rhe, .. } => {
+            format!("(prefix {} {} {})", irdump::prefix(prefix_op), dump(rhe), v)
+        }
+        _ => format!("(other {})", v),
+    }
+}
+
+fn dispatch_inner(curve: &Curve, expr_src: &str) -> String {
+    let src = format!("function f() {{ return {}; }}", expr_src);
+    let mut def = match verif_harness::guarded(|| parse_definition(&src)) {
+        None => return "panic parse".to_string(),
+        Some(None) => return "parseerr".to_string(),
+        Some(Some(d)) => d,
+    };
+    match &mut def {
+        Definition::Template { meta, body, .. } | Definition::Function { meta, body, .. } => {
+            meta.set_file_id(0);
+            let mut id = 0;
+            body.fill(0, &mut id);
+        }
+    }
+    let mut reports = ReportCollection::new();
+    let cfg = match verif_harness::guarded(|| def.into_cfg(curve, &mut reports)) {
+        None => return "panic cfg".to_string(),
+        Some(Err(_)) => return "cfgerr".to_string(),
+        Some(Ok(c)) => c,
+    };
+    // value propagation runs inside into_ssa
+    let cfg = match verif_harness::guarded(|| cfg.into_ssa()) {
+        None => return "panic ssa".to_string(),
+        Some(Err(_)) => return "ssaerr".to_string(),
+        Some(Ok(c)) => c,
+    };
+    let mut out = Vec::new();
+    for bb in cfg.iter() {
+        for stmt in bb.iter() {
+            if let Statement::Return { value, .. } = stmt {
+                out.push(dump(value));
+            }
+        }
+    }
+    if out.len() == 1 {
+        out.pop().unwrap()
+    } else {
+        format!("returns {}", out.len())
+    }
+}
+
+/// `<curve> <hex expression text>`; expressions whose exponent or shift count is large run under the watchdog.
+pub fn dispatch_line(line: &str) -> String {
+    let t: Vec<&str> = line.split_whitespace().collect();
+    if t.len() != 2 {
+        return "bad-line".to_string();
+    }
+    let curve = match Curve::from_str(t[0]) {
+        Ok(c) => c,
+        Err(_) => return "bad-curve".to_string(),
+    };
+    let src = irdump::unhex(t[1]);
+    let (tx, rx) = mpsc::channel();
+    std::thread::spawn(move || {
+        let r = dispatch_inner(&curve, &src);
+        let _ = tx.send(r);
+    });
+    let r = match rx.recv_timeout(Duration::from_secs(5)) {
+        Ok(s) => s,
+        Err(_) => "timeout".to_string(),
+    };
+    format!("{} {} = {}", t[0], t[1], r)
+}
+
 fn main() {
     verif_harness::silence_panics();
     let args: Vec<String> = std::env::args().collect();
@@ -114,6 +212,8 @@ fn main() {
             sweep(p.parse().unwrap(), &mut out);
         }
         out.flush().unwrap();
+    } else if args.len() >= 2 && args[1] == "dispatch" {
+        verif_harness::each_line(dispatch_line);
     } else {
         verif_harness::each_line(run_line);
     }
